@@ -62,7 +62,7 @@ def check_function(ctx, fi, self_cls, stats):
         elif m in PUBLIC_SUB:
             frozen = (fi.qual, m) in R4_FROZEN
             # a public call on an object that is not part of the member chain (e.g. sizeof() for a length) is a value computation
-            ctx.ob("C18.R4", fi, frozen or m == "sizeof", "public %s() inside a protocol method drops the path" % m, node=e.node,
+            ctx.ob("C18.R4", fi, frozen, "public %s() inside a function that has a path in scope restarts the path" % m, node=e.node,
                    detail=R4_FROZEN.get((fi.qual, m)))
             stats["sub"] += 1
     for e in uniq_events(paths, *STREAM_EVENTS):
@@ -80,6 +80,33 @@ def check_function(ctx, fi, self_cls, stats):
         ctx.ob("C18.R5", fi, good, "raise %s must carry path=path (got %s)" % (e["cls"], N.show(p) if p else "no path"), node=e.node,
                key="raise %s #%d" % (e["cls"], k))
         stats["raise"] += 1
+
+
+def check_translation(ctx, fi, self_cls):
+    """R6: a handler that can catch a ConstructError coming out of a sub-construct must not replace it by a new
+    exception (the original carries the deeper path)."""
+    S = summariser(ctx)
+    paths = paths_of(ctx, fi, self_cls)
+    errs = [c.name for c in ctx.model.error_classes()]
+    verdict = {}
+    for p in paths:
+        for i, e in enumerate(p.events):
+            if e.kind != "CATCH" or e.depth or i == 0:
+                continue
+            prev = p.events[i - 1]
+            if not prev.raised or prev.kind != "SUB":
+                continue
+            can = [c for c in errs if S.catches(e["types"], c) is True]
+            if not can:
+                verdict.setdefault(id(e.node), (True, e))
+                continue
+            replaced = p.outcome[0] == "raise" and p.outcome[1].get("kind") == "explicit" and not p.outcome[1].get("reraised") \
+                and not any(x.kind == "ENDCATCH" and x["tid"] == e["tid"] for x in p.events[i + 1:])
+            cur = verdict.get(id(e.node), (True, e))
+            verdict[id(e.node)] = (cur[0] and not replaced, e)
+    for ok, e in verdict.values():
+        ctx.ob("C18.R6", fi, ok, "handler %s around a sub-construct call replaces a ConstructError (and its deeper path) by a new exception" % "/".join(e["types"]),
+               node=e.node, key="handler %s" % "/".join(e["types"]))
 
 
 def run(ctx):
@@ -140,10 +167,13 @@ def run(ctx):
             fi.outer = FuncInfo(par, fi.relpath)
         self_cls = fi.cls.name if fi.cls is not None else None
         check_function(ctx, fi, self_cls, stats)
+        if any(isinstance(x, ast.Try) for x in ast.walk(fi.node)):
+            check_translation(ctx, fi, self_cls)
     ctx.extra["sites"] = dict(stats)
     ctx.call_sites += stats["sub"] + stats["stream"]
     ctx.floor("C18.R4", 200)
     ctx.floor("C18.R5", 100)
+    ctx.floor("C18.R6", 15)
 
     # ---- positive control: a raise without path and a sub call with a literal path must be reported
     ctl = control_model(
